@@ -142,9 +142,12 @@ def _validate_record(datum, schema, named_schemas, parent_ns, raise_errors, opti
     validated as True.
     """
     _, fullname = schema_name(schema, parent_ns)
+    # parent_ns is the path of the enclosing field (kept for error messages),
+    # not a namespace: the "-type" hint is compared with the record's own name
+    _, type_name = schema_name(schema, "")
     return (
         isinstance(datum, Mapping)
-        and not ("-type" in datum and datum["-type"] != fullname)
+        and not ("-type" in datum and datum["-type"] != type_name)
         and all(
             _validate(
                 datum=datum.get(f["name"], f.get("default", NoValue)),
